@@ -110,11 +110,48 @@ def einsum_ref(tensors, legs, out):
     return np.einsum(*args, [L(x) for x in out], optimize=True)
 
 
+def dense_tree(ttn, rank):
+    """pairwise contraction along the tree (used when einsum runs out of index letters)"""
+    cp = copy.deepcopy(ttn)
+
+    def rec(nid):
+        nd = cp.nodes[nid]
+        cur = cp.tensors[nid]
+        labels = (["P"] if nd.parent is not None else []) + [("C", c) for c in nd.children] + [(nid, j) for j in range(nd.nopen_legs())]
+        for c in nd.children:
+            ct, cl = rec(c)
+            ax = labels.index(("C", c))
+            cur = np.tensordot(cur, ct, axes=(ax, 0))
+            labels = labels[:ax] + labels[ax + 1:] + cl
+        return cur, [l for l in labels if l != "P"]
+    T, labels = rec(cp.root_id)
+    perm = sorted(range(len(labels)), key=lambda k: (rank[labels[k][0]], labels[k][1]))
+    return T.transpose(perm) if perm else T
+
+
 def dense_sites(ttn, order):
     """contraction with the open legs ordered by `order` (list of node ids), each node's open legs in node order"""
     rank = {nid: i for i, nid in enumerate(order)}
     tokens = {nid: [(rank[nid], j) for j in range(nd.nopen_legs())] for nid, nd in ttn.nodes.items()}
-    return dense_by_tokens(ttn, tokens)
+    if sum(len(v) for v in tokens.values()) > 60:
+        return None                      # numpy arrays have at most 64 axes: structure-only check
+    d = dense_by_tokens(ttn, tokens)
+    return d if d is not None else dense_tree(ttn, rank)
+
+
+class Budget:
+    """keeps the product of the open dimensions (= size of the dense reference) bounded"""
+
+    def __init__(self, limit=300000):
+        self.limit = limit
+        self.prod = 1
+
+    def pick(self, rng, choices):
+        d = rng.choice(list(choices))
+        while d > 1 and self.prod * d > self.limit:
+            d -= 1
+        self.prod *= d
+        return d
 
 
 def exc_str(e):
@@ -161,23 +198,27 @@ class C19(Prop):
     rule = ("exhaustive grid: chains of length 1..8 with every root position (+ out-of-range / negative roots), physical dimension 1..3, "
             "0-2 open legs, random bond dimensions; product-state helpers with every state value, every root and bond padding (None / ones / random / "
             "invalid); stars (0-3 chains of length 0-3, dimension 1..3, every state value; random stars with interleaved call orders); forks "
-            "(width, height 1..4, bond 1..3; random call orders); binary trees with 1..12 (thorough 24) physical sites; TTNO.from_tensor on random "
+            "(width, height 1..4, bond 1..3; random call orders); binary trees with 1..16 (thorough 40) physical sites; TTNO.from_tensor on random "
             "trees (1-5 nodes), random leg assignments, site dimensions 1..3, QR/SVD/tSVD, full- and low-rank operators; Ising / flipped Ising on "
             "random trees, pair lists, grids (tuple and array form) up to 6x6, exact chains up to 8 sites. non-trivial = at least 2 nodes / sites")
     clauses = [
-        ("F", "MPS from_tensor_list (all lengths, all root positions, all shapes the code accepts): node dictionary in closed form: chain site0..site(L-1), "
-              "neighbours i-1/i+1, requested root, parents toward the root, tensor axis 0 -> left neighbour, axis 1 -> right neighbour (ends: axis 0), left/right "
-              "node lists (C19_mps_*)"),
-        ("F", "MPS on documented input shapes (any bond dimensions, any open legs) is accepted by the store model, i.e. no step is rejected (C19_mps_accepts)"),
-        ("F", "Ising term list = single-site block ++ coupling block with factor -1 and symbols ext_magn / coupling; tree: each edge once (permutation of the edge list), "
-              "2n-1 terms; r x c grid: each grid edge exactly once, never reversed, (r-1)c + r(c-1) couplings, every site exactly one field term when r*c >= 2; "
-              "1x1 grid has no term (refutation); denotation -J sum A_i A_j - g sum B_i over any additive structure (C19_ising_*, C19_grid_*)"),
-        ("F", "_get_qr_decomposition_shape is a permutation of all 2n legs and puts the legs of the first child's subtree last (what _from_tensor_rec splits off) (C19_qr_*)"),
-        ("F", "star product state: the repaired instance (bug=false) is accepted for every dimension; the instance as found (bug=true) rejects every dimension != 2 with >= 1 chain node (C19_star_dim_*)"),
-        ("I", "per explored instance: the store produced by the model of every constructor passes the executable invariant checker wfb (Inv.v), evaluated by vm_compute"),
-        ("O", "QR / SVD factors of from_tensor contract back to the input (LAPACK contract; validated numerically by the dense oracle)"),
-        ("V", "contraction of the produced networks equals the specified tensor chain / product state (dense einsum oracle, exact on integer tensors), independent of root and padding; "
-              "model builders equal the Kronecker sums; exact dense builders agree"),
+        ("F", "MPS from_tensor_list (all lengths, all root positions, all tensor lists on which no call raises): node dictionary in closed form: chain site0..site(L-1), "
+              "dictionary order, neighbours i-1/i+1, requested root, parents toward the root, tensor axis 0 -> left neighbour, axis 1 -> right neighbour (site 0: axis 0), "
+              "left/right node lists (C19_mps_closed_form, C19_mps_dict_order, C19_mps_chain)"),
+        ("F", "MPS on the documented input format (any bond dimensions, any open legs, any root) is accepted: no add_child_to_parent is rejected (C19_mps_accepts); "
+              "the produced store satisfies the store invariant wfb (C19_mps_store_wf); likewise every star / fork built through add_chain_node / add_*_chain_node "
+              "(C19_star_store_wf, C19_fork_store_wf)"),
+        ("F", "Ising term list = field block ++ coupling block, factor -1, symbols ext_magn / coupling; tree: nearest_neighbours is a permutation of the edge list for any "
+              "dictionary order, 2n-1 terms; r x c grid (all r, c): exactly the grid edges, each once, never reversed, (r-1)c + r(c-1) couplings; r*c >= 2: field block is a "
+              "permutation of the sites; 1x1 grid: no term (refutation = finding C19-grid-1x1); denotation -J sum A_i A_j - g sum B_i over any additive structure; exact "
+              "builder = same multiset on the chain = 1 x n grid (C19_ising_*, C19_tree_*, C19_grid_*, C19_exact_terms, C19_chain_is_grid_row)"),
+        ("F", "_get_qr_decomposition_shape is a permutation of all 2n legs for every tree and bijective leg_dict and puts the first child's subtree legs last (C19_qr_*)"),
+        ("F", "star product state as found (bug=true) rejects every dimension != 2 with >= 1 chain node (C19_star_dim_refuted); bounded: the repaired instance, binary trees "
+              "(1..16 sites) and constant_ftps (1..5 x 1..5) are accepted, well-formed and have the documented node counts (C19_star_fixed_bounded, C19_binary_bounded, C19_ftps_bounded)"),
+        ("I", "per explored instance: the store produced by the model of every constructor (incl. product-state helpers, binary replace_node) passes wfb, evaluated by vm_compute"),
+        ("O", "QR / SVD factors of from_tensor contract back to the input (LAPACK contract; validated numerically by the dense oracle); bond dimension = min(rows, cols) tied exactly"),
+        ("V", "contraction of the produced networks equals the specified tensor chain / star / fork / product state (dense einsum oracle, exact on integer tensors), independent of root and "
+              "padding; from_tensor contracts to the input operator; model builders equal the Kronecker sums; exact dense builders agree with the symbolic ones"),
     ]
     trusted_base = ["NumPy reshape/pad/zeros/kron/einsum; LAPACK QR/SVD in from_tensor (validated numerically through the dense oracle)",
                     "identifier strings are rendered by the harness from the labels the model prints (format strings 'site{i}', '{prefix}{c}_{j}', ... copied from the docstrings)",
@@ -202,17 +243,18 @@ class C19(Prop):
         Ls = list(range(1, 9))
         for L in Ls:
             for r in range(L):
-                reps = (3 if th else 1) * budget_scale
+                reps = (8 if th else 2) * budget_scale
                 for rep in range(reps):
                     phys = rng.choice([1, 2, 3])
                     nopen = [rng.choice([1, 1, 1, 2, 0]) if rep else 1 for _ in range(L)]
                     if not main:
                         nopen = [rng.choice([0, 1, 2]) for _ in range(L)]
                     bonds = [rng.choice([1, 2, 3]) for _ in range(L - 1)]
-                    opens = [[phys if k == 0 else rng.choice([1, 2]) for k in range(nopen[i])] for i in range(L)]
+                    bud = Budget()
+                    opens = [[bud.pick(rng, [phys]) if k == 0 else bud.pick(rng, [1, 2]) for k in range(nopen[i])] for i in range(L)]
                     cases.append({"kind": "mps_list", "bonds": bonds, "opens": opens, "root": r, "seed": sd(),
                                   "prefix": rng.choice(["site", "site", "q"]), "mal": None})
-        for _ in range((12 if th else 5) * budget_scale):
+        for _ in range((40 if th else 8) * budget_scale):
             L = rng.randrange(2, 7)
             bonds = [rng.choice([1, 2, 3]) for _ in range(L - 1)]
             opens = [[rng.choice([2, 3])] for _ in range(L)]
@@ -234,7 +276,7 @@ class C19(Prop):
                     for sv in svs:
                         bk = rng.choice(["none", "ones", "rand", "rand"]) if main else rng.choice(["none", "rand", "rand", "zero", "len"])
                         cases.append(self._cps_case(rng, sv, dim, n, r, bk))
-        for _ in range((10 if th else 4) * budget_scale):
+        for _ in range((40 if th else 8) * budget_scale):
             n = rng.randrange(2, 6)
             dim = rng.choice([1, 2, 3])
             sv = rng.choice([-1, dim, dim + 1, 0])
@@ -249,10 +291,10 @@ class C19(Prop):
         for (sv, dim, cl, nch) in [(-1, 2, 1, 1), (2, 2, 1, 1), (0, 0, 1, 1), (0, 2, -1, 1), (0, 2, 1, -1), (3, 3, 2, 2)]:
             cases.append({"kind": "star_cps", "sv": sv, "dim": dim, "clen": cl, "nch": nch, "prefix": "site"})
         # --- random stars / forks through the add_* methods --------------------------------------------
-        for _ in range((40 if th else 12) * budget_scale):
+        for _ in range((200 if th else 30) * budget_scale):
             cases.append({"kind": "star_build", "seed": sd(), "nch": rng.choice([1, 1, 2, 3, 4]), "maxlen": rng.choice([1, 2, 3, 4]),
                           "mal": rng.random() < 0.15, "state": rng.random() < 0.5})
-        for _ in range((40 if th else 12) * budget_scale):
+        for _ in range((200 if th else 30) * budget_scale):
             cases.append({"kind": "fork_build", "seed": sd(), "h": rng.choice([1, 2, 2, 3, 4]), "maxw": rng.choice([0, 1, 2, 3]),
                           "mal": rng.random() < 0.15})
         for w in range(1, 5):
@@ -262,21 +304,21 @@ class C19(Prop):
         for (w, h, bd) in [(0, 2, 1), (2, 0, 1), (2, 2, 0), (-1, 2, 2)]:
             cases.append({"kind": "ftps", "w": w, "h": h, "bd": bd, "phys": 2, "seed": sd()})
         # --- binary trees -------------------------------------------------------------------------------
-        for n in range(1, (25 if th else 13)):
+        for n in range(1, (41 if th else 17)):
             for bd in ((1, 2, 3) if th else (rng.choice([1, 2, 3]),)):
                 cases.append({"kind": "binary", "n": n, "bd": bd, "phys": rng.choice([1, 2, 3]), "seed": sd(), "mal": None})
         for mal in ["n0", "bd0", "shape"]:
             cases.append({"kind": "binary", "n": rng.randrange(2, 6), "bd": 2, "phys": 2, "seed": sd(), "mal": mal})
         # --- from_tensor -----------------------------------------------------------------------------------
-        for j in range((150 if th else 36) * budget_scale):
+        for j in range((600 if th else 90) * budget_scale):
             nn = rng.choice([1, 2, 2, 3, 3, 4, 4, 5])
             cases.append({"kind": "from_tensor", "seed": sd(), "nnodes": nn, "mode": ["QR", "SVD", "tSVD"][j % 3],
                           "lowrank": j % 4 == 3, "mal": (j % 17 == 16)})
         # --- Ising builders -----------------------------------------------------------------------------------
-        for j in range((60 if th else 16) * budget_scale):
+        for j in range((240 if th else 40) * budget_scale):
             cases.append({"kind": "ising_tree", "seed": sd(), "nnodes": rng.choice([1, 2, 3, 4, 5, 6, 7]), "flipped": j % 2 == 1,
                           "J": dyadic(rng), "g": dyadic(rng)})
-        for j in range((40 if th else 10) * budget_scale):
+        for j in range((160 if th else 30) * budget_scale):
             cases.append({"kind": "ising_pairs", "seed": sd(), "nnodes": rng.choice([2, 3, 4, 5, 6, 7]), "flipped": j % 2 == 1,
                           "J": dyadic(rng), "g": dyadic(rng)})
         grid_sizes = [(r, c) for r in range(1, 7) for c in range(1, 7)]
@@ -428,7 +470,9 @@ class C19(Prop):
             ref = einsum_ref(tensors, legs, [x for lg in legs for x in lg if x[0] == "o"])
             try:
                 d = dense_sites(m, ids)
-                if d.shape != ref.shape:
+                if d is None:
+                    pass
+                elif d.shape != ref.shape:
                     v = f"contraction has shape {d.shape}, the tensor chain {ref.shape}"
                 elif not np.array_equal(d, ref):
                     v = f"contraction differs from the chain A_0 A_1 ... A_(L-1) (max diff {float(np.max(np.abs(d - ref))):.3g})"
@@ -465,7 +509,7 @@ class C19(Prop):
                 d = dense_sites(m, ids)
                 ref = np.zeros((dim,) * n)
                 ref[(sv,) * n] = 1
-                if d.shape != ref.shape or not np.array_equal(d, ref):
+                if d is not None and (d.shape != ref.shape or not np.array_equal(d, ref)):
                     v = f"contraction is not the product state |{sv}>^{n} (shape {d.shape})"
             if v is None and case["bonds"] is not None:
                 for i in range(n - 1):
@@ -511,7 +555,7 @@ class C19(Prop):
                 d = dense_sites(m, ids)
                 ref = np.zeros((dim,) * len(ids))
                 ref[(sv,) * len(ids)] = 1
-                if d.shape != ref.shape or not np.array_equal(d, ref):
+                if d is not None and (d.shape != ref.shape or not np.array_equal(d, ref)):
                     v = f"contraction is not the product state |{sv}> on {len(ids)} sites (shape {d.shape})"
         ob["viol"] = v
         return ob
@@ -523,14 +567,15 @@ class C19(Prop):
         lens = [rng.randrange(1, case["maxlen"] + 1) for _ in range(nch)]
         cb = [rng.choice([1, 2, 3]) for _ in range(nch)]
         nco = 1 if case["state"] else rng.choice([0, 1, 2])
-        center = cb + [rng.choice([1, 2, 3]) for _ in range(nco)]
+        bud = Budget()
+        center = cb + [bud.pick(rng, [1, 2, 3]) for _ in range(nco)]
         chain_shapes = []
         for c in range(nch):
             b = cb[c]
             shs = []
             for j in range(lens[c]):
                 no = 1 if case["state"] else rng.choice([0, 1, 2])
-                opens = [rng.choice([1, 2, 3]) for _ in range(no)]
+                opens = [bud.pick(rng, [1, 2, 3]) for _ in range(no)]
                 if j < lens[c] - 1:
                     nb = rng.choice([1, 2, 3])
                     shs.append([b, nb] + opens)
@@ -609,7 +654,7 @@ class C19(Prop):
                 ref = einsum_ref(tl, legs, [x for lg in legs for x in lg if x[0] == "o"])
                 try:
                     d = dense_sites(st, ids)
-                    if d.shape != ref.shape or not np.array_equal(d, ref):
+                    if d is not None and (d.shape != ref.shape or not np.array_equal(d, ref)):
                         v = f"contraction differs from the star of the input tensors (shape {d.shape} vs {ref.shape})"
                 except Exception as e:  # noqa
                     v = f"network not contractible with the documented leg order: {exc_str(e)}"
@@ -653,11 +698,12 @@ class C19(Prop):
                 legs[par].append(("b", par, x))
                 legs[x].append(("b", par, x))
         shapes = {}
+        bud = Budget()
         for x in order:
             no = rng.choice([0, 1, 1, 2])
             for k in range(no):
                 legs[x].append(("o", x, k))
-            shapes[x] = [bdim[(l[1], l[2])] if l[0] == "b" else rng.choice([1, 2, 3]) for l in legs[x]]
+            shapes[x] = [bdim[(l[1], l[2])] if l[0] == "b" else bud.pick(rng, [1, 2, 3]) for l in legs[x]]
         # shapes of open legs must be fixed once: recompute deterministically
         mal = None
         if case["mal"]:
@@ -710,7 +756,7 @@ class C19(Prop):
                 ref = einsum_ref(tl, lg, [l for x in so for l in legs[x] if l[0] == "o"])
                 try:
                     d = dense_sites(ft, ids)
-                    if d.shape != ref.shape or not np.array_equal(d, ref):
+                    if d is not None and (d.shape != ref.shape or not np.array_equal(d, ref)):
                         v = f"contraction differs from the fork of the input tensors (shape {d.shape} vs {ref.shape})"
                 except Exception as e:  # noqa
                     v = f"network not contractible with the documented leg order: {exc_str(e)}"
@@ -763,12 +809,12 @@ class C19(Prop):
                 for k, nd in ft.nodes.items():
                     if nd.nopen_legs() != 1:
                         v = f"{k} has {nd.nopen_legs()} open legs"
-            if v is None:
+            if v is None and case["phys"] ** len(ids) <= 2000000 and len(ids) <= 60:
                 d = dense_sites(ft, ids)
                 ref = loc
                 for _ in range(len(ids) - 1):
                     ref = np.multiply.outer(ref, loc)
-                if d.shape != ref.shape or not np.array_equal(d, ref):
+                if d is not None and (d.shape != ref.shape or not np.array_equal(d, ref)):
                     v = "contraction is not the product of the local state over all nodes"
         ob["viol"] = v
         return ob
@@ -840,14 +886,14 @@ class C19(Prop):
                     v = f"leaves in breadth-first order are {[x[0] for x in leaves]}"
                 if v is None and max(x[1] for x in leaves) - min(x[1] for x in leaves) > 1:
                     v = "leaf depths differ by more than one"
-            if v is None:
+            if v is None and phys ** n <= 2000000 and 2 * n - 1 <= 60:
                 order = sorted(t.nodes, key=lambda k: (0, int(k[4:])) if k.startswith("site") else (1, k))
                 d = dense_sites(t, order)
                 ref = pt[0]
                 for _ in range(n - 1):
                     ref = np.multiply.outer(ref, pt[0])
                 ref = ref.reshape(ref.shape + (1,) * (n - 1))
-                if d.shape != ref.shape or not np.array_equal(d, ref):
+                if d is not None and (d.shape != ref.shape or not np.array_equal(d, ref)):
                     v = f"contraction is not the product of the physical tensors (shape {d.shape} vs {ref.shape})"
         ob["viol"] = v
         return ob
@@ -1308,7 +1354,9 @@ class C19(Prop):
         if set_block:
             ns = sum(1 for t in terms_model if t[1] == "ext_magn")
             key = lambda t: repr(t)
-            if sorted(map(key, it[:ns])) != sorted(map(key, terms_model[:ns])) or len(it) != len(terms_model):
+            if len(it) != len(terms_model):
+                return f"term count: impl {len(it)} model {len(terms_model)}"
+            if sorted(map(key, it[:ns])) != sorted(map(key, terms_model[:ns])):
                 return f"single-site block (multiset): impl {it[:ns]} model {terms_model[:ns]}"
             if it[ns:] != terms_model[ns:]:
                 return f"coupling block: impl {it[ns:]} model {terms_model[ns:]}"
